@@ -11,7 +11,7 @@ T = {
  'C03-a': ("normalizePercentEncoding: second hex digit of an escape not checked", "a query containing '%', one hex digit, one non-hex byte (e.g. ?id=%7z), and a second URI whose normalised query equals the mis-normalised result", None, 'active'),
  'C06-a': ("responseCache.Set: error of httputil.DumpResponse shadowed", "the origin's body fails while being drained (connection breaks after N bytes, length mismatch) for an otherwise storable response", "missed at first; ghost bodyReadFailed and the clause unreadable-body-not-written added", 'active'),
  'C06-b': ("TrimmedCSVSeq: backslash-escape handling removed", "a quoted directive argument with an odd number of \\\" followed by no-store / must-understand", "missed at first (tokenizer was trusted); its loop now carries the quoting state machine as invariants", 'active'),
- 'C07-a': ("sameOrigin compares host:port text instead of effective ports", "Location/Content-Location with the scheme's default port spelled on exactly one side", None, 'active'),
+ 'C07-a': ("sameOrigin compares host:port text instead of effective ports", "Location/Content-Location with the scheme's default port spelled on exactly one side", "patch.diff re-ported after fix 36b5d7c changed sameOrigin (the seeded comparison now uses asciiLower like the repaired code) and re-confirmed", 'active'),
  'C08-a': ("backgroundRevalidate re-reads the variant index before finishValidation but keeps the old position", "stale-while-revalidate validation, >= 2 variants, storage order different from the matcher's sort order", None, 'active'),
  'C10-a': ("GetRefs returns the decoded slice together with the error for nil elements", "stored index JSON with a null element, unsafe method, 2xx/3xx reply", None, 'active'),
  'C10-b': ("normalizePercentEncoding: i not advanced when '%' is followed by non-hex bytes (infinite loop)", "a query with '%' followed by two bytes that are not both hex", "missed at first (termination was not verified); loop N decreases clauses added to the engine and to every explicit loop", 'active'),
